@@ -11,9 +11,10 @@
    __set__(obj, value) (attr already monitored):                           desc_set
         values = make_list(value)     <- copy BEFORE clearing                (Live -> the current contents)
         attr._clear(); for v in values: attr._add_item(v)
-   x.f += vs : t = x.f ; t = list.__iadd__(t, vs)  (builtin, in place,     builtin_iaug ; desc_set Live
-               no _on_add) ; x.f = t
-   x.s |= vs : the same through set.__ior__
+   x.f += vs : t = x.f ; t = t.__iadd__(vs) = extend(vs), returns t ;      fold add_item ; desc_set Live
+               x.f = t   (5f0198c: MonitoredList.__iadd__, MonitoredSet.__ior__)
+   x.s |= vs : the same through __ior__ = update(vs)
+   c = x.f ; c += vs : __iadd__ only                                        fold add_item
    append / add / update(it1, it2, ...): _add_item per element               add_item, folds
    extend(items): for item in list(items): _add_item(item)                  copy FIRST (items may be the list itself
                                                                            or a one-shot iterator), then fold add_item
@@ -38,6 +39,7 @@ Definition desc_set (k : kind) (v : value) (s : cst) : cst :=
   let values := match v with Fresh vs => vs | Live => items s end in    (* make_list(value): a copy *)
   fold_left (add_item k) values {| items := []; rec := rec s |}.          (* _clear(), then re-add *)
 
+(* before 5f0198c += / |= were the builtins: in place, no _on_add (kept for the regression lemma old_alias_inplace_unrecorded) *)
 Definition builtin_iaug (k : kind) (vs : list elt) (s : cst) : cst :=
   {| items := match k with KList => items s ++ vs | KSet => set_union (items s) vs end; rec := rec s |}.
 
@@ -50,7 +52,10 @@ Definition step (k : kind) (o : op) (s : cst) : cst * bool :=
   match k, o with
   | _, Assign vs => (desc_set k (Fresh vs) s, false)
   | _, AssignSelf => (desc_set k Live s, false)
-  | _, IAug vs => (desc_set k Live (builtin_iaug k vs s), false)
+  | _, IAug vs =>               (* __iadd__ / __ior__ = extend / update (records the new elements), then __set__ with the live container *)
+      (desc_set k Live (fold_left (add_item k) vs s), false)
+  | _, IAugAlias vs =>          (* the in-place operator through another reference: __iadd__ / __ior__ only, no __set__ follows *)
+      (fold_left (add_item k) vs s, false)
   | KList, Append x => (add_item KList s x, false)
   | KList, Extend vs => (fold_left (add_item KList) vs s, false)
   | KList, Insert i x =>        (* list.insert FIRST, then _on_add *)
